@@ -134,6 +134,10 @@ func (c *Check) lockset(rule string, rel, typ, mutex string, guarded map[*types.
 			if le.HeldBefore(ac.Instr)[mu] {
 				continue
 			}
+			// hand-over callee: entered with the lock held, releases it before returning
+			if le.ReleasesOnly(fn, mu) && le.MinCountBefore(ac.Instr, mu) >= 0 {
+				continue
+			}
 			if helperHeld < 0 {
 				helperHeld = 0
 				if !ast_IsExported(fn.Name()) && c.entryHeld(fn, mu, 0, map[*ssa.Function]bool{}) {
